@@ -65,7 +65,6 @@ func runAccept(r *Run, v2 bool) int {
 	}
 	distinct := newHashBits()
 	var acc, rej [3]atomic.Int64
-	var bySrc sync.Map
 	visit := func(w *W, s string, m *strMeta) {
 		if m.Src != "random-bytes" {
 			distinct.add(s)
@@ -86,7 +85,6 @@ func runAccept(r *Run, v2 bool) int {
 			w.Sample(map[string]interface{}{"string": clip(s, 160), "generator": m.Src, "reference_accepts_at_environmental_decoder": a, "defects": d.Names()})
 		}
 	}
-	_ = bySrc
 	stringWorkload(r, v2, visit)
 	// a few very long inputs
 	w := r.NewW()
